@@ -25,6 +25,6 @@ Report ==
             z == ZeroFill(lay, r0.bfix, 4)
             f == UbxSerialize(r0.cls, r0.id, z)
             im == InputMode(f, PollWithSelector)
-        IN (r0.ok /\ SelectDefName(m, r0.cls, r0.id, z) = name /\ im # ModeName(m)) =>
+        IN (r0.ok /\ CountsFit(lay) /\ SelectDefName(m, r0.cls, r0.id, z) = name /\ im # ModeName(m)) =>
               PrintT("M " \o ModeName(m) \o " " \o name \o " " \o ToString(Len(z)) \o " resolved-to-" \o im)
 =============================================================================
